@@ -86,10 +86,10 @@ class GraphGen:
             r = self.rng
             return self.data.User(
                 uuid=self.uid(),
-                username=r.choice(["alice", "bob_92", "ünï"]) if self.opt() else None,
+                username=r.choice(["alice", "bob_92", "ünï", ""]) if self.opt() else None,
                 email=r.choice(["a@example.com", "first.last@uni.ac.uk"]) if self.opt() else None,
                 name=r.choice(["Alice A.", "Bob", "名前"]) if self.opt() else None,
-                institution=r.choice(["UCL", "Inst. of ✓"]) if self.opt() else None,
+                institution=r.choice(["UCL", "Inst. of ✓", ""]) if self.opt() else None,
             )
         if fresh:
             u = make()
@@ -116,7 +116,7 @@ class GraphGen:
         out = []
         for _ in range(n):
             t = self.tag()
-            if not any(t is x or t == x for x in out):
+            if not any(t is x or t == x for x in out) or self.rng.random() < 0.12:   # now and then the same tag twice
                 out.append(t)
         return out
 
@@ -152,13 +152,14 @@ class GraphGen:
             return self.data.Recording(
                 uuid=self.uid(), path=path, duration=r.choice([1.0, 10.0, 0.123, 3600.5]), channels=r.choice([1, 2, 4]),
                 samplerate=r.choice([8000, 22050, 44100, 48000, 192000, 384000]), time_expansion=te,
-                hash=f"{r.getrandbits(128):032x}" if self.opt() else None,
+                hash=r.choice([f"{r.getrandbits(128):032x}", ""]) if self.opt() else None,
                 date=datetime.date(r.randint(1999, 2030), r.randint(1, 12), r.randint(1, 28)) if self.opt() else None,
                 time=datetime.time(r.randint(0, 23), r.randint(0, 59), r.randint(0, 59), r.choice([0, r.randint(0, 999999)])) if self.opt() else None,
-                latitude=r.uniform(-90, 90) if self.opt() else None, longitude=r.uniform(-180, 180) if self.opt() else None,
-                license=r.choice(["CC-BY-4.0", "proprietary ✓"]) if self.opt() else None,
+                latitude=r.choice([0.0, -0.0, r.uniform(-90, 90)]) if self.opt() else None,
+                longitude=r.choice([0.0, r.uniform(-180, 180), 180.0]) if self.opt() else None,
+                license=r.choice(["CC-BY-4.0", "proprietary ✓", ""]) if self.opt() else None,
                 owners=[self.user() for _ in range(r.choice([1, 2]))] if self.opt() else [],
-                rights=r.choice(["(c) someone", "all rights reserved"]) if self.opt() else None,
+                rights=r.choice(["(c) someone", "all rights reserved", ""]) if self.opt() else None,
                 tags=self.tag_list(), features=self.features(), notes=self.notes(),
             )
         if outside or subdir is not None:
